@@ -12,6 +12,7 @@ PROP="${1:-}"; MODE="${2:-quick}"
 case "$PROP" in
   C38) ENGINE=sim_pb;   SET=plain; DUAL=1 ;;
   C07) ENGINE=sim_iter; SET=plain ;;
+  C32) ENGINE=sim_generator; SET=plain ;;
   *) echo "HARNESS-ERROR: no engine for property $PROP" >&2; exit 2 ;;
 esac
 TDIR="$ROOT/target/$SET"
